@@ -1055,10 +1055,22 @@ def _decorate_new_with_invariants(new_func: CallableT) -> CallableT:
 
     def wrapper(*args, **kwargs):  # type: ignore
         """Pass the arguments to __new__ and check invariants on the result."""
-        instance = new_func(*args, **kwargs)
+        cls = args[0] if len(args) > 0 else kwargs["cls"]
 
-        for invariant in instance.__class__.__invariants__:
-            _assert_invariant(contract=invariant, instance=instance)
+        if new_func is object.__new__ and cls.__init__ is not object.__init__:
+            # ``object.__new__`` ignores the arguments of the call if the class defines ``__init__`` and does
+            # not override ``__new__``. Since we override ``__new__`` with this wrapper, we need to drop
+            # the arguments ourselves; they are meant for ``__init__`` (*e.g.*, defined in a sub-class).
+            instance = new_func(cls)
+        else:
+            instance = new_func(*args, **kwargs)
+
+        # If the class of the instance defines ``__init__`` (*e.g.*, in a sub-class), the construction has not been
+        # finished yet, and the invariants can not be checked here. Analogously, we must not check the invariants
+        # if ``__new__`` returned an instance of some other class.
+        if isinstance(instance, cls) and type(instance).__init__ is object.__init__:
+            for invariant in instance.__class__.__invariants__:
+                _assert_invariant(contract=invariant, instance=instance)
 
         return instance
 
